@@ -18,5 +18,5 @@ def run(ctx):
                 "decides; the literal set handed to the recursion is the remainder (never the false child; literals "
                 "below skipped negative literals are kept); the result puts the sub-cube on the branch taken.")
     n = epick.run(ctx, F)
-    ctx.floor("E-TABLE.pick", "abstract situations of the cube-picking step", n, 60)
+    ctx.floor("E-TABLE.pick", "abstract situations of the cube-picking step", n, 80)
     ctx.not_decided = "that the result implies the function, don't-care minimality, statistical uniformity"
